@@ -106,6 +106,29 @@ def pool():
                  "page": {"orientation": "landscape", "nrow": 4, "border_first": "thick"},
                  "page_header": {}, "page_footer": {"text": "PF0"}, "footnote": FN}
     P["empty"] = {"kind": "table", "df": tagged(0, 2), "body": {}, "title": TT, "footnote": FN}
+    # near twins: the same attribute VALUES in documents whose palettes / fonts / sizes differ, so that a
+    # result memoised per value (and not per document) by an earlier encode is wrong for the later one
+    P["bcol_a"] = {"kind": "table", "df": tagged(3, 2), "body": {"border_top": "single", "border_color_top": "red",
+                                                                 "border_color_left": "tomato"}, "title": TT}
+    P["bcol_b"] = {"kind": "table", "df": tagged(3, 2), "body": {"border_top": "single", "border_color_top": "red",
+                                                                 "border_color_left": "tomato", "text_color": "blue"},
+                   "title": {"text": "TT0", "text_color": "aliceblue"}}
+    P["col_a2"] = {"kind": "table", "df": tagged(3, 3), "body": {"text_color": ["red", "blue", "gold"]},
+                   "title": {"text": "TT0", "text_color": "darkgreen", "text_background_color": "aliceblue"},
+                   "footnote": {"text": "FN0", "text_color": "blue"}}
+    # palettes with a two-digit number of colours
+    palA = ["red", "blue", "gold", "tomato", "navy", "khaki", "orchid", "peru", "plum", "salmon", "sienna", "turquoise"]
+    palB = ["azure", "beige", "coral", "cyan", "gray", "green", "ivory", "linen", "maroon", "tan", "pink", "wheat", "violet"]
+    P["pal12_a"] = {"kind": "table", "df": tagged(3, 4), "body": {"text_color": [palA[0:4], palA[4:8], palA[8:12]]},
+                    "title": {"text": "TT0", "text_color": "red"}}
+    P["pal12_b"] = {"kind": "table", "df": tagged(3, 4), "body": {"text_color": [palB[0:4], palB[4:8], palB[8:12]],
+                                                                  "text_background_color": palB[12]},
+                    "footnote": {"text": "FN0", "text_color": "coral"}}
+    long_text = {"name": "N3", "dtype": "str", "values": ["lorem ipsum dolor sit amet consectetur " * 2] * 20}
+    P["paged_s8"] = {"kind": "table", "df": tagged(20, 3, extra=[long_text]), "body": {"text_font_size": 8},
+                     "page": {"nrow": 12}, "title": TT, "footnote": FN}
+    P["paged_s14"] = {"kind": "table", "df": tagged(20, 3, extra=[long_text]), "body": {"text_font_size": 14, "text_font": 4},
+                      "page": {"nrow": 12}, "title": TT, "footnote": FN}
     return P
 
 
